@@ -161,8 +161,8 @@ static void run_threads(vh_rng *r, int n, int alive) {
 		for (i = 0; i < batch; i++) {
 			Rec *g = &rec[i];
 			scen = "tls-destructors";
-			if (!wait_until(NULL, pred_destroyed, &g->v[2], 5000)) viol("tls-destructor-at-exit", "value left in TLS at thread exit was never passed to the destroy notifier");
-			if (g->he) { scen = "handle-lifecycle"; if (!wait_until(NULL, pred_freed, g->he, 5000)) viol("handle-never-freed", "thread handle not released after the last reference was dropped and the thread finished"); }
+			if (!wait_until(NULL, pred_destroyed, &g->v[2], 30000)) viol("tls-destructor-at-exit", "value left in TLS at thread exit was never passed to the destroy notifier");
+			if (g->he) { scen = "handle-lifecycle"; if (!wait_until(NULL, pred_freed, g->he, 30000)) viol("handle-never-freed", "thread handle not released after the last reference was dropped and the thread finished"); }
 		}
 		usleep(2000);
 		for (i = 0; i < batch; i++) {
@@ -208,7 +208,7 @@ static void run_concurrent_unref(int rounds) {
 		u_target = t; u_ent = e; pthread_barrier_init(&ubar, NULL, 2);
 		__real_pthread_create(&a, NULL, unref_racer, NULL); __real_pthread_create(&b, NULL, unref_racer, NULL);
 		pthread_join(a, NULL); pthread_join(b, NULL); pthread_barrier_destroy(&ubar);
-		if (e) { if (!wait_until(NULL, pred_freed, e, 3000)) viol("handle-never-freed", "handle not released after two concurrent unrefs dropped the last references"); e->live = 0; }
+		if (e) { if (!wait_until(NULL, pred_freed, e, 30000)) viol("handle-never-freed", "handle not released after two concurrent unrefs dropped the last references"); e->live = 0; }
 #ifndef HB_MODE
 		if (va_bad_free) { viol("double-free", "handle block released twice when the last two references were dropped concurrently (%lld frees of dead blocks)", va_bad_free); va_bad_free = 0; }
 #endif
@@ -269,7 +269,7 @@ static void run_foreign(int n) {
 		if (__real_pthread_create(&t, NULL, foreign_fn, NULL)) continue;
 		pthread_join(t, &ret);
 		scen = "foreign-thread";
-		if (ret) { HEnt *e = ret; if (!wait_until(NULL, pred_freed, e, 3000)) viol("handle-never-freed", "implicit handle of a foreign thread not released at thread exit"); e->live = 0; }
+		if (ret) { HEnt *e = ret; if (!wait_until(NULL, pred_freed, e, 30000)) viol("handle-never-freed", "implicit handle of a foreign thread not released at thread exit"); e->live = 0; }
 		st_foreign++;
 	}
 }
